@@ -23,18 +23,18 @@ def gen_schedule(rng):
     for d in range(rank):
         kind = rng.choice(["plain", "plain", "tiled", "tiled", "slide"])
         if kind == "plain":
-            b = rng.choice([2, 3, 4, 6, 8, 12, 16])
+            b = rng.choice([1, 2, 3, 4, 6, 8, 12, 16])
             loops.append(b)
             dim_exprs.append([(len(loops) - 1, 1)])
             shape.append(b)
         elif kind == "tiled":
-            t = rng.choice([2, 4, 8])
-            o = rng.choice([2, 3, 4])
+            t = rng.choice([1, 2, 4, 8])          # unit-trip loops are what tiling leaves behind for a dimension it does not split
+            o = rng.choice([1, 2, 3, 4])
             loops += [o, t]
             dim_exprs.append([(len(loops) - 2, t), (len(loops) - 1, 1)])
             shape.append(o * t)
         else:
-            a, f = rng.choice([4, 6, 8]), rng.choice([2, 3])
+            a, f = rng.choice([4, 6, 8]), rng.choice([1, 2, 3])
             loops += [a, f]
             dim_exprs.append([(len(loops) - 2, 1), (len(loops) - 1, 1)])
             shape.append(a + f - 1)
@@ -50,7 +50,7 @@ def gen_schedule(rng):
     # extra reduction / broadcast loop that indexes only some operands
     extra = None
     if rng.random() < 0.4:
-        loops.append(rng.choice([2, 3, 4]))
+        loops.append(rng.choice([1, 2, 3, 4]))
         extra = len(loops) - 1
     nl = len(loops)
     perm = list(range(nl))
